@@ -83,7 +83,9 @@ def cases(draw):
             'ex_parameters': draw(st.one_of(st.none(), st.permutations(list(colnames) + ['MODEL_NAME']).map(
                 lambda p: list(p)[:max(1, (len(p) * 2) // 3)]))),
             'records': recs, 'selector': sel, 'additional': additional, 'input': form_in,
-            'name_width': draw(st.sampled_from([30, 30, 12]))}
+            'name_width': draw(st.sampled_from([30, 30, 12])),
+            'name_justify': draw(st.sampled_from(['left', 'left', 'left', 'right'])),
+            'par_gz': draw(st.integers(0, 4)) == 0}
 
 
 def close(got, want, rel=5.1e-4, absol=0.):
@@ -138,8 +140,14 @@ def run_case(case, ctx):
       for ipass, perm_now in enumerate(passes):
         # second pass: the SAME model directory, parameters.fits rewritten with its rows in another order (listings are
         # looked up by model name, so nothing may remember the previous order)
-        pkgio.write_parameters(mdir, names, dict((c, case['params'][c]) for c in case['columns']), order=perm_now,
-                               width=case['name_width'], fmt=case.get('col_format', 'D'))
+        stored = names
+        if case.get('name_justify') == 'right':
+            # names right-justified in the column (leading blanks of unequal length): names are compared without padding
+            wj = min(case['name_width'], max(len(x) for x in names) + 2)
+            stored = [x.rjust(wj) for x in names]
+            labels.add('names_right_justified')
+        pkgio.write_parameters(mdir, stored, dict((c, case['params'][c]) for c in case['columns']), order=perm_now,
+                               width=case['name_width'], fmt=case.get('col_format', 'D'), gz=bool(case.get('par_gz')))
         if ipass:
             labels.add('table_rewritten_in_same_directory')
             d2 = os.path.join(d, 'pass2')
